@@ -3,10 +3,14 @@
 //! expected values: every judgement is made by TLC against the TLA+ specification.
 mod cmp;
 mod gen;
+mod hist;
+mod obj;
 mod util;
 mod words;
 
 fn main() {
+    // a panic inside the library under test is data (recorded by the drivers), not noise
+    std::panic::set_hook(Box::new(|_| {}));
     let argv: Vec<String> = std::env::args().collect();
     if argv.len() < 2 {
         eprintln!("usage: verif-harness <cmd> [--seed N] [--tier quick|thorough] [--out DIR] [--shards N]");
@@ -57,11 +61,29 @@ fn main() {
                 }
             }
         }
+        "obj" => {
+            let thorough = args.tier == "thorough";
+            let mode = args.rest.get(0).map(|s| s.as_str()).unwrap_or("all").to_string();
+            match mode.as_str() {
+                "parse" => obj::drive_parse(&args, thorough),
+                "fmt" => obj::drive_fmt(&args, thorough),
+                "norm" => obj::drive_norm(&args, thorough),
+                "dual" => obj::drive_dual(&args, thorough),
+                "ord" => obj::drive_ord(&args, thorough),
+                "hist" => hist::drive_hist(&args, thorough),
+                "ctor" => hist::drive_ctor(&args, thorough),
+                x => {
+                    eprintln!("unknown obj mode {}", x);
+                    std::process::exit(2);
+                }
+            }
+        }
         "replay" => {
             // replay <family> <in.ndjson>  --out DIR
             match args.rest[0].as_str() {
                 "gen" => gen::replay(&args.rest[1], &args.out),
                 "cmp" => cmp::replay(&args.rest[1], &args.out),
+                "obj" => hist::replay(&args.rest[1], &args.out),
                 f => {
                     eprintln!("unknown replay family {}", f);
                     std::process::exit(2);
